@@ -1,6 +1,7 @@
 package fs
 
 import (
+	"archive/tar"
 	"bytes"
 	"database/sql"
 	"io"
@@ -117,15 +118,16 @@ func (f *File) syncWithoutLocking() error {
 	}
 
 	if f.writeBuf != nil {
-		// The entry may have been removed while the handle was open; flushing would bring it back without its parents
-		if _, err := inventory.Stat(
+		// The entry may have been removed (or replaced by a directory) while the handle was open; flushing would
+		// bring it back without its parents
+		if existing, err := inventory.Stat(
 			f.metadata,
 
 			f.path,
 			false,
 
 			f.onHeader,
-		); err == sql.ErrNoRows {
+		); err == sql.ErrNoRows || (err == nil && existing.Typeflag == tar.TypeDir) {
 			return nil
 		}
 
